@@ -9,7 +9,7 @@ def run(tree, rep, tier):
     W_fitter(rep, flow, want=("W4", "W5", "W6", "W7", "S1"))
     B1_B2_counts(rep, flow, want=("B1",))
     S2_estimator(rep, flow)
-    W1_W2_builders(rep, flow, want=("W2",))
+    W1_W2_builders(rep, flow, want=("W2",), builders=["tomography.stabilizer_measurement_circuit"])
     P4_inverse(rep, flow)
     rep.trusted += ["Q1", "Q2", "Q5"]
     rep.assumptions += ["Pauli.evolve(C, frame='s') = C P C^dagger and frame='h' (default) = C^dagger P C with Qiskit's sign convention (trusted)"]
